@@ -65,7 +65,9 @@ TRUSTED = [
 ]
 RULE = (
     "history shape (linear/branched/merged/depends_on, 1..N revisions) x per-revision bodies (create/drop table, add/drop column, "
-    "create/drop index, bulk_insert with awkward literals and identifiers, execute of plain statements) x command x start heads x target; "
+    "create/drop index, bulk_insert with awkward literals and identifiers, columns with string/number/expression server defaults (nullable or not; "
+    "rows give a value, an explicit None or omit the key; also add_column(server_default=...) followed by bulk_insert), multiinsert on/off, "
+    "execute of plain statements) x command x start heads x target; "
     "a case is non-trivial when both runs succeed and the script has >= 1 statement besides version bookkeeping; distinct by script text"
 )
 ASSUMPTIONS = [
